@@ -262,8 +262,8 @@ def write_evidence(prop, tier, seed, mod, cresults, obligations, wall, rc, viola
     level = getattr(mod, 'LEVEL', 'proof')
     trusted = list(getattr(mod, 'TRUSTED', [])) + sorted(axioms)
     cov = dict(
-        obligations=len(obligations), discharged=len(proved),
-        unbounded_obligations=len(unb), unbounded_discharged=len(unb_proved),
+        obligations=len(unb), discharged=len(unb_proved),  # unbounded proof obligations only; bounded stand-ins are listed separately
+        all_obligations_including_bounded=len(obligations),
         bounded_obligations=len(obligations) - len(unb), bounded_discharged=len(proved) - len(unb_proved),
         refuted=sum(1 for o in obligations if o.status == 'refuted'), known_finding_obligations=known_count,
         undecided=sum(1 for o in obligations if o.status not in ('proved', 'refuted')),
